@@ -1,4 +1,5 @@
 import Mdsort.Proofs.World
+import Mdsort.Proofs.WorldFrameMain
 
 /-!
 # C04 - the exit status tells the truth (MDA contract, error isolation)
@@ -24,5 +25,155 @@ theorem C04_config_error (env : PEnv) (orc : EvalOracles) (conf : List ConfBlock
     (Proofs.callsOf plan (mainP env orc false conf files input) w = [.fopen env.confpath] ∨
      ∃ h, Proofs.callsOf plan (mainP env orc false conf files input) w = [.fopen env.confpath, .fclose h]) :=
   Proofs.bad_config_only_reads_config env orc conf files input w plan
+
+/-! ## Frame and error isolation (world level, arbitrary call results)
+
+`runOracle orcl p i tr` runs `p` when the trace so far is `tr`, giving the `j`-th call the ARBITRARY
+result `orcl j c`; the statements therefore hold for every behaviour of the file system, every fault
+and every interleaving with other processes.  `createdNames tr` are the names for which an exclusive
+create succeeded in `tr` (Model/Plan.lean).
+
+`Proofs.Framed src tr c` (Proofs/WorldFrameOwn.lean) is the frame condition on a call `c` issued when
+the trace is `tr`, for the message named `src`:
+
+* `unlinkat _ n`: `n` is `src` or a name this run created;
+* `renameat _ n1 _ n2`: `n1` is `src` or a name this run created, and `n2` is a name this run created;
+* `utimensat _ n ..`: `n` is a name this run created;
+* `write fd _`, `fprintf fd _`: `fd` is a descriptor of a file this run created (`Proofs.ownFds`: result
+  of a successful exclusive create or `mkostemp`, or a duplicate of such a descriptor);
+* `unlink p`: `p` is the template of a temporary file this run created with `mkostemp`;
+* `mkdtemp`, `mkdir`, `rmdir`, `readdir`: never;
+* anything else (`openExcl`, which creates a fresh name or fails; `mkostemp`; the calls that change
+  nothing): allowed. -/
+
+/-- **Frame.**  Processing one message mentions, in its mutating calls, only the message's own name
+and names this run created itself - for every oracle of results and from every trace so far. -/
+theorem C04_frame (env : PEnv) (orc : EvalOracles) (expr : Expr) (md : Maildir) (name : Bytes) (st : MainSt)
+    (orcl : Nat → Call → Res) (i0 : Nat) (tr0 : List (Call × Res)) :
+    ∀ i c r, tr0.length ≤ i → (runOracle orcl (processMessage env orc expr md name st) i0 tr0).2[i]? = some (c, r) →
+      Proofs.Framed name ((runOracle orcl (processMessage env orc expr md name st) i0 tr0).2.take i) c :=
+  Proofs.processMessage_frame env orc expr md name st orcl i0 tr0
+
+/-- **Isolation of the calls of a walk.**  `Proofs.FramedW tr c`: `c` is a `readdir`, or satisfies
+`Framed n tr` for the name `n` the most recent `readdir` of `tr` returned (`Proofs.lastName`: the
+message being processed at that point); before any name was returned `c` is not mutating.  So for
+a walk over a directory with messages `n1 … nk`, whatever the calls return, a mutating call that
+mentions a name which existed before the run mentions the name of the message being processed at
+that point, and no other. -/
+theorem C04_isolation_calls (env : PEnv) (orc : EvalOracles) (expr : Expr) (fuel : Nat) (md : Maildir) (st : MainSt)
+    (orcl : Nat → Call → Res) (i0 : Nat) (tr0 : List (Call × Res)) :
+    ∀ i c r, tr0.length ≤ i → (runOracle orcl (walk env orc expr fuel md st) i0 tr0).2[i]? = some (c, r) →
+      Proofs.FramedW ((runOracle orcl (walk env orc expr fuel md st) i0 tr0).2.take i) c :=
+  Proofs.walk_frame env orc expr fuel md st orcl i0 tr0
+
+/-- Non-vacuity of the frame: `match all discard` on the message `1` of `/m/new` (directory handle 3;
+every call succeeds, `read` returns end of file at once): the run is `openat`, `read`, `unlinkat` of
+the message's own name, `close`. -/
+example :
+    ((runOracle (fun _ c => match c with | .read _ => .ok 0 | _ => .ok 7)
+      (processMessage Proofs.examplePEnv Proofs.exampleOracles (.mtch 1 (.all 1) (.discard 1))
+        { root := [47, 109], path := [47, 109, 47, 110, 101, 119], dirH := some 3, subdir := .new, walk := true, stdin := false }
+        [49]
+        { files := [([47, 109, 47, 110, 101, 119], [49], [83, 117, 98, 106, 101, 99, 116, 58, 32, 120, 10, 10, 98, 10])],
+          error := false, reject := false, log := [] }) 0 []).2.map (·.1)) =
+      [.openRd 3 [49], .read 7, .unlinkat 3 [49], .close 7] := by
+  simp only [processMessage, eval]
+  decide +kernel
+
+/-- **Error isolation.**  In a walk, when `readdir` returns the name `n` (not `.` or `..`), the run is
+the `readdir`, the run of `processMessage` for `n`, and then the run of the rest of the walk on the
+SAME maildir from the state `processMessage` returned - whatever that state is, in particular whether
+or not the message set `error`: the next call is the next `readdir`.  The flag is sticky: set before
+the message it is set after it, and set after the message it is set at the end of the walk. -/
+theorem C04_error_isolated (env : PEnv) (orc : EvalOracles) (expr : Expr) (fuel : Nat) (md : Maildir) (st : MainSt)
+    (d : Handle) (n : Bytes) (orcl : Nat → Call → Res) (tr : List (Call × Res))
+    (hd : md.dirH = some d) (hr : orcl tr.length (.readdir d) = .name n) (hn : (n == [46] || n == [46, 46]) = false) :
+    let one := runOracle orcl (processMessage env orc expr md n st) (tr.length + 1) (tr ++ [(.readdir d, .name n)])
+    let all := runOracle orcl (walk env orc expr (fuel + 1) md st) tr.length tr
+    all = runOracle orcl (walk env orc expr fuel md one.1.1) one.2.length one.2 ∧
+    one.1.2 = md ∧
+    (fuel ≠ 0 → all.2[one.2.length]? = some (.readdir d, orcl one.2.length (.readdir d))) ∧
+    (one.1.1.error = true → all.1.1.error = true) ∧
+    (st.error = true → one.1.1.error = true) :=
+  Proofs.walk_isolated env orc expr fuel md st d n orcl tr hd hr hn
+
+/-- Non-vacuity: an open maildir whose `readdir` returns the name `1`. -/
+example :
+    let md : Maildir := { root := [47, 109], path := [47, 109, 47, 110, 101, 119], dirH := some 3, subdir := .new,
+                          walk := true, stdin := false }
+    md.dirH = some 3 ∧ (fun (_ : Nat) (_ : Call) => Res.name [49]) ([] : List (Call × Res)).length (.readdir 3) = .name [49] ∧
+      (([49] : Bytes) == [46] || ([49] : Bytes) == [46, 46]) = false := by
+  decide
+
+/-- **The error flag never influences what is done.**  The walk (and one message's processing) from a
+state whose flag is or-ed with `b` is the same program - the same calls for all results, the same
+final state - as from the state itself, except that the final flag is or-ed with `b`. -/
+theorem C04_error_flag_inert (env : PEnv) (orc : EvalOracles) (expr : Expr) (fuel : Nat) (md : Maildir) (name : Bytes)
+    (st : MainSt) (b : Bool) :
+    walk env orc expr fuel md { st with error := b || st.error } =
+      (walk env orc expr fuel md st).bind (fun x => pure ({ x.1 with error := b || x.1.error }, x.2)) ∧
+    processMessage env orc expr md name { st with error := b || st.error } =
+      (processMessage env orc expr md name st).bind (fun x => pure ({ x.1 with error := b || x.1.error }, x.2)) :=
+  ⟨Proofs.Own.walk_setErr env orc expr fuel md st b, Proofs.Own.processMessage_setErr env orc expr md name st b⟩
+
+/-! ## Where the error flag comes from
+
+`Proofs.Own.runO orcl p i` is `runOracle` without the accumulator: the value of `p`, the calls it
+issued, and the index of the next call (`Proofs.Own.runOracle_eq`). -/
+
+/-- **One message.**  After processing a message the flag is the flag before or-ed with the
+message's own error bit `Proofs.msgError` (Proofs/WorldFrameErr.lean): the file is unknown to the
+model, `message_parse` failed (open/read failure, over-long path or name, invalid flag suffix), the
+rules' verdict is an evaluation error or an interpolation failure, or - not in a dry run - the action
+list reported an error. -/
+theorem C04_message_error_iff (env : PEnv) (orc : EvalOracles) (expr : Expr) (md : Maildir) (name : Bytes) (st : MainSt)
+    (orcl : Nat → Call → Res) (i : Nat) (tr : List (Call × Res)) :
+    (runOracle orcl (processMessage env orc expr md name st) i tr).1.1.error =
+      (st.error || Proofs.msgError env orc expr md name st orcl i) :=
+  Proofs.processMessage_error_oracle env orc expr md name st orcl i tr
+
+/-- **One maildir.**  After a walk the flag is set iff it was set before or one of the causes
+`Proofs.WalkErr` occurred in this run: `readdir` failed; the path of `cur` does not fit or `cur`
+cannot be opened; or the error bit of some message the walk reached is set (`message`, with `later` /
+`afterDot` / `inCur` locating it in the run). -/
+theorem C04_walk_error_iff (env : PEnv) (orc : EvalOracles) (expr : Expr) (fuel : Nat) (md : Maildir) (st : MainSt)
+    (orcl : Nat → Call → Res) (i : Nat) (tr : List (Call × Res)) :
+    (runOracle orcl (walk env orc expr fuel md st) i tr).1.1.error = true ↔
+      st.error = true ∨ Proofs.WalkErr env orc expr orcl fuel md st i :=
+  Proofs.walk_error_oracle_iff env orc expr fuel md st orcl i tr
+
+/-- **The whole run (`C04_error_iff`, with the per-message action failures kept as the error value of
+`matchesExec`).**  The error flag `main` derives its exit status from is set iff one of the causes
+`Proofs.MainErr` (Proofs/WorldFrameMain.lean) occurred in this run: the configuration file cannot be
+opened; the configuration is not valid; or - unless `-n` - for some block and some selected path of
+it (`Proofs.PathsErr`, `Proofs.BlocksErr`): the stdin spool cannot be set up, the path or path +
+`/new` does not fit, `new` cannot be opened, or a cause `Proofs.WalkErr` occurs in the walk
+(`readdir` failure, `cur` not joinable / not openable, or some message's error bit
+`Proofs.msgError`: unknown file, parse failure, evaluation error, interpolation failure, action
+failure). -/
+theorem C04_error_iff_partial (env : PEnv) (orc : EvalOracles) (orcl : Nat → Call → Res) (confOk : Bool)
+    (conf : List ConfBlock) (files : Files) (input : Bytes) :
+    (runOracle orcl (mainP env orc confOk conf files input) 0 []).1.2.error = true ↔
+      Proofs.MainErr env orc orcl confOk conf files input :=
+  Proofs.mainP_error_oracle_iff env orc orcl confOk conf files input
+
+/-- Non-vacuity: with every call succeeding and no block configured, an invalid configuration is a
+cause and a valid one leaves none. -/
+example :
+    Proofs.MainErr Proofs.examplePEnv Proofs.exampleOracles (fun _ _ => .ok 0) false [] [] [] ∧
+    ¬ Proofs.MainErr Proofs.examplePEnv Proofs.exampleOracles (fun _ _ => .ok 0) true [] [] [] := by
+  simp [Proofs.MainErr, Proofs.BlocksErr]
+
+/-- **Isolation of the calls of a whole run in maildir mode** (`-` not given): every call is a
+`readdir` or satisfies the frame condition for the name the last `readdir` returned (between walks
+only the configuration file, `opendir` and `closedir` are used). -/
+theorem C04_isolation_calls_main (env : PEnv) (orc : EvalOracles) (ok : Bool) (conf : List ConfBlock) (files : Files)
+    (input : Bytes) (hm : env.stdinMode = false) (orcl : Nat → Call → Res) :
+    ∀ i c r, (runOracle orcl (mainP env orc ok conf files input) 0 []).2[i]? = some (c, r) →
+      Proofs.FramedW ((runOracle orcl (mainP env orc ok conf files input) 0 []).2.take i) c :=
+  Proofs.mainP_frame env orc ok conf files input hm orcl
+
+/-- Non-vacuity: maildir mode. -/
+example : Proofs.examplePEnv.stdinMode = false := rfl
 
 end Mdsort.Props
